@@ -333,6 +333,13 @@ def abs_from_msg(msg):
             "oh": g("origin_host", ""), "rlm": g("destination_realm", ""), "rc": g("result_code", 0)}
 
 
+class HandlerFailed(Exception):
+    pass
+
+
+HANDLER_FAILURES = (RuntimeError, NotImplementedError, KeyError, HandlerFailed, AttributeError, ValueError, LookupError, AssertionError, TypeError, OSError)
+
+
 def make_app(world, a):
     N = world.ns
     base = N.application.Application if a["kind"] == "basic" else N.application.ThreadingApplication
@@ -358,8 +365,9 @@ def make_app(world, a):
             if mode == "alt":           # no answer to the 1st, 3rd, ... request; an answer at once to the others
                 self.nreq = getattr(self, "nreq", 0) + 1
                 mode = "none" if self.nreq % 2 == 1 else "answer"
-            if mode == "raise":
-                raise RuntimeError("handler failed")
+            if mode == "raise":         # "handling fails": whatever the handler raises (the kinds rotate, deterministically)
+                self.nraise = getattr(self, "nraise", 0) + 1
+                raise HANDLER_FAILURES[self.nraise % len(HANDLER_FAILURES)]("handler failed")
             if mode == "answer":
                 ans = self.generate_answer(message, result_code=2001)
                 if a["kind"] == "basic":
